@@ -193,7 +193,7 @@ func runC09(c *Ctx, idx int, o *Obs) {
 		ntax, ntrees = 4+r.Intn(6), gen.Pick(r, 255, 257, 300, 1000)
 	}
 	o.AddSet("list:collection_sizes", fmt.Sprint(ntrees))
-	lenCls := gen.Pick(r, "len", "tie")
+	lenCls := gen.Pick(r, "len", "tie", "len", "neg") // negative lengths are legal and enter the means like any other
 	base := gen.Tree(r, gen.Opts{N: ntax, Shape: gen.Pick(r, "random", "random", "caterpillar", "balanced"), RootDeg: 3,
 		MultiP: gen.Pick(r, 0.0, 0.0, 0.2), Lens: "all", LenCls: lenCls, Names: gen.Pick(r, "simple", "simple", "hostile")})
 	baseText := base.Newick()
